@@ -127,7 +127,13 @@ func evalLocal(c Case) (v evid.Verdict, inf info) {
 	}
 	v, inf.Outcome, inf.Alloc, inf.Dur = measured(c, call)
 	if !v.OK {
+		if inf.Alloc > profileRefresh {
+			refreshProfileBaseline()
+		}
 		return v, inf
+	}
+	if inf.Alloc > profileRefresh && inf.Alloc <= allocBound(len(c.In)) {
+		refreshProfileBaseline()
 	}
 	if inf.Alloc > allocBound(len(c.In)) {
 		inf.Outcome = "fail"
@@ -194,39 +200,70 @@ func trimStack(st string) string {
 	return strings.Join(out, "\n")
 }
 
-// allocSite names the site that allocated the most since the previous call of allocSite (or since
-// the process started): after a call that broke the bound that is the offending allocation, by a
-// wide margin. Allocations of at least runtime.MemProfileRate bytes are always sampled, and the
-// workers lower the rate to 64 KiB, so an allocation that breaks a 16 MiB bound cannot be missed.
-// (The call is not run a second time: a second multi-hundred-megabyte request in a process whose
-// address space is capped is exactly what the worker should not be asked to survive.)
-var lastProfile = map[[32]uintptr]int64{}
+// Allocation-site attribution. The heap profile (allocations of at least runtime.MemProfileRate
+// bytes are always sampled; the workers lower the rate to 64 KiB) is compared with a baseline, and
+// the site with the largest growth names the failure. The baseline is renewed after every call that
+// allocated more than a few MiB - whether it passed, panicked or failed - so that what has grown
+// since is the work of the failing call alone, apart from small objects, which are filtered out by
+// their average size. (The call is not run a second time under the profiler: a second
+// multi-hundred-megabyte request in a process whose address space is capped is exactly what a worker
+// should not be asked to survive.)
+const profileRefresh = 4 << 20
 
-func allocSite(c Case, ep *entryPoint) (string, bool) {
+type profEntry struct{ bytes, objects int64 }
+
+var profBaseline = map[[32]uintptr]profEntry{}
+
+func readProfile() map[[32]uintptr]profEntry {
 	runtime.GC() // the profile is published at the end of a collection cycle
 	runtime.GC()
 	n, _ := runtime.MemProfile(nil, true)
 	recs := make([]runtime.MemProfileRecord, n+64)
 	n, ok := runtime.MemProfile(recs, true)
 	if !ok {
+		return nil
+	}
+	now := map[[32]uintptr]profEntry{}
+	for _, r := range recs[:n] {
+		e := now[r.Stack0]
+		e.bytes += r.AllocBytes
+		e.objects += r.AllocObjects
+		now[r.Stack0] = e
+	}
+	return now
+}
+
+func refreshProfileBaseline() {
+	if now := readProfile(); now != nil {
+		profBaseline = now
+	}
+}
+
+func allocSite(c Case, ep *entryPoint) (string, bool) {
+	now := readProfile()
+	if now == nil {
 		return "unknown", false
 	}
 	type site struct {
 		st    [32]uintptr
 		bytes int64
+		big   bool
 	}
 	var sites []site
-	now := map[[32]uintptr]int64{}
-	for _, r := range recs[:n] {
-		now[r.Stack0] += r.AllocBytes
-	}
-	for st, b := range now {
-		if d := b - lastProfile[st]; d > 0 {
-			sites = append(sites, site{st, d})
+	for st, e := range now {
+		b := profBaseline[st]
+		if db, do := e.bytes-b.bytes, e.objects-b.objects; db > 0 && do > 0 {
+			sites = append(sites, site{st, db, db/do >= 1<<20})
 		}
 	}
-	lastProfile = now
-	sort.Slice(sites, func(i, j int) bool { return sites[i].bytes > sites[j].bytes })
+	profBaseline = now
+	// sites that allocated large objects first, then by volume
+	sort.Slice(sites, func(i, j int) bool {
+		if sites[i].big != sites[j].big {
+			return sites[i].big
+		}
+		return sites[i].bytes > sites[j].bytes
+	})
 	for _, s := range sites {
 		n := 0
 		for n < len(s.st) && s.st[n] != 0 {
